@@ -9,7 +9,7 @@ Anything outside the vocabulary on a path that has to be interpreted raises
 """
 import ast
 
-from .loader import AnalysisError, FuncInfo, ClassInfo, Module, norm, dotted
+from .loader import walk_no_nested, AnalysisError, FuncInfo, ClassInfo, Module, norm, dotted
 from . import ta
 from .ta import Expr, Array, C
 
@@ -127,6 +127,7 @@ class Interp:
         self.assumptions = set()
         self.noop_seen = []
         self.stores = 0
+        self.coverage_gaps = []         # loops that fill an axis allocated with a different extent
         self.base_facts = ta.Facts()
         self.opaque_elems = {}          # opaque element name -> rhs text
         self.fn_args = {}               # opaque function factor -> (fn, argument, indices)
@@ -690,6 +691,7 @@ class Interp:
                 self.err(st, "store subscript %r" % (s,))
             idxnames.append(nm)
             w = w * Expr.delta(Array.ph(k), nm)
+        self._check_coverage(arr, subs, target, st)
         g = self.guard()
         if mode == "=":
             old = arr.at(*idxnames)
@@ -707,6 +709,47 @@ class Interp:
             arr.template = ta.simplify(arr.template, self.base_facts)
         arr.written = True
         self.stores += 1
+
+    # ------------------------------------------------------------------
+    def _canon_extent(self, expr, func, depth=0):
+        """set of source expressions a length expression can stand for in `func`, following plain
+        bindings name = name/attribute (flow-insensitive; both arms of a conditional count)"""
+        def binds(text):
+            out = []
+            for n in walk_no_nested(func.node):
+                if isinstance(n, ast.Assign):
+                    for t_ in n.targets:
+                        if norm(t_) == text:
+                            out.append(n.value)
+            return out
+        if isinstance(expr, (ast.Name, ast.Attribute)) and depth < 5:
+            bs = binds(norm(expr))
+            if bs:
+                res = set()
+                for b in bs:
+                    res |= self._canon_extent(b, func, depth + 1)
+                return res
+        return {norm(expr)}
+
+    def _check_coverage(self, arr, subs, target, st):
+        """The algebra sums a stored contribution over the whole range of the loop index and treats it
+        as covering the axis it addresses.  That is only right when the loop runs over the length the
+        axis was allocated with; record every axis filled by a loop with a different bound."""
+        ext = getattr(arr, "extent_nodes", None)
+        if ext is None or getattr(arr, "alloc_func", None) is not self.stack[-1]:
+            return
+        func = self.stack[-1]
+        for k, s_ in enumerate(subs):
+            if not isinstance(s_, Index) or s_.name.startswith("#") or not s_.range_text:
+                continue
+            try:
+                bound = ast.parse(s_.range_text, mode="eval").body
+            except SyntaxError:
+                continue
+            a, b = self._canon_extent(ext[k], func), self._canon_extent(bound, func)
+            if a != b:
+                self.coverage_gaps.append({"array": norm(target.value), "axis": k, "allocated": sorted(a),
+                                           "loop_bound": sorted(b), "loc": func.loc(st), "function": func.short})
 
     # ------------------------------------------------------------------
     def eval_subscript(self, sl, env):
@@ -1058,6 +1101,14 @@ class Interp:
             if rank is None:
                 self.err(node, "cannot determine rank of allocation")
             arr = Array.zeros(rank)
+            # remember how long each axis was declared (source expressions), for the coverage check
+            sh = node.args[0] if node.args else None
+            if short != "zeros_like" and isinstance(sh, ast.Tuple) and len(sh.elts) == rank:
+                arr.extent_nodes = list(sh.elts)
+                arr.alloc_func = self.stack[-1]
+            elif short != "zeros_like" and sh is not None and rank == 1 and not isinstance(sh, ast.Tuple):
+                arr.extent_nodes = [sh]
+                arr.alloc_func = self.stack[-1]
             dtn = None
             for kw in node.keywords:
                 if kw.arg == "dtype":
